@@ -130,6 +130,21 @@ func injectFaults(fresh func() []*doc.Node, emit func(f fault)) {
 				emit(fault{kind: "similar-paths", nodes: t, culprits: []*doc.Node{orig, other}, injected: other})
 			}
 		}
+		// 3b. the same path with one parameter renamed, for every parameter of every path
+		if (isMethod(kw) || kw == "URL") && len(n.Params) > 0 && parent == nil {
+			pp, bad := refPathParams(n.Params[0])
+			for pi := range pp {
+				if bad {
+					break
+				}
+				t := fresh()
+				orig, _ := idxOf(t, k)
+				renamed := strings.Replace(orig.Params[0], "{"+pp[pi].name+"}", "{zz"+fmt.Sprint(pi)+"}", 1)
+				other := doc.N("PATCH", renamed).WithParen().WithKids(doc.N("200", "any"))
+				t = append(t, other)
+				emit(fault{kind: "similar-paths-renamed", nodes: t, culprits: []*doc.Node{orig, other}, injected: other})
+			}
+		}
 		// 4. second singleton child
 		if parent != nil {
 			for _, host := range singletonUnder[kw] {
